@@ -13,10 +13,11 @@ import logging
 
 from common import hx
 
+import random
 import nfc.tag
 import nfc.tag.tt1
 import nfc.tag.tt2
-from sim.tag_t1t2 import T2TSim, T1TSim, FakeClf, activate
+from sim.tag_t1t2 import T2TSim, T1TSim, FakeClf, activate, REAL_FRONTEND
 
 logging.disable(logging.CRITICAL)
 
@@ -955,6 +956,188 @@ def retry_cases(ck, L, old, new, pid, rng, extra, bt=None):
                 rewrite_case(ck, L, old, new, k1, rng.choice(FAULT_KINDS), executed, d2, pid, rng, bt=bt)
 
 
+class _Part(object):
+    """the commands of one operation of a history, in the shape monitor_frame expects of a simulator"""
+
+    def __init__(self, log, mem):
+        self.log, self.mem = log, mem
+
+
+def layout_after_format(L, product, mem_f):
+    """the layout that is valid once format() returned True: the Topaz / Topaz-512 product classes re-create the factory
+    management bytes (NDEF TLV at byte 12 / 22), everything else keeps the position of the NDEF TLV"""
+    Lf = Layout()
+    Lf.__dict__.update(L.__dict__)
+    Lf.mem = bytearray(mem_f)
+    if product == 'Topaz':
+        Lf.off, Lf.R, Lf.dend = 12, set(range(104, 120)), 120
+    elif product == 'Topaz512':
+        Lf.off, Lf.R, Lf.dend = 22, set(range(104, 128)), 512
+    f = Lf.free_after_tag()
+    Lf.cap_expected = (f + 1) - (4 if f + 1 > 256 else 2)
+    return Lf
+
+
+def fmtwrite_case(ck, bt, L, old, wipe, new, pid, rng):
+    """three operations on ONE tag object through the base class code (Tag.ndef, Tag.format, NDEF.octets): the message is read,
+    the tag is formatted, a new message is assigned.  The assignment is judged against the layout that is valid after the
+    format: (C01) it succeeds and a fresh reader reads it back, (C02) after a cut at any of its commands a fresh reader sees
+    the formatted (empty) tag or the new message, (C03) its commands stay inside the NDEF area of the formatted tag.
+    Correspondence: the assignment on the kept tag object against the model's write on the memory left by format()."""
+    mem = bytearray(L.mem)
+    L2 = Layout()
+    L2.__dict__.update(L.__dict__)
+    L2.mem = mem
+    L2.put_message(mem, old)
+    case = {'layout': L2.describe(), 'old': hx(old), 'fmtwrite': {'wipe': wipe, 'data': hx(new)}}
+    product = case['layout']['product']
+    if (product == 'Topaz512' and len(mem) != 512) or (product == 'Topaz' and len(mem) != 120):
+        ck.count('fmtwrite-skipped-product-size')
+        return
+    sim = L2.sim()
+    tag = activate(FakeClf(sim))
+    got = {}
+
+    def rd():
+        got['o'] = bytes(tag.ndef.octets) if tag.ndef is not None else None
+    if classify(rd) != 'ok' or got['o'] is None:
+        return
+    if got['o'] != old:
+        ck.broken.append('harness: the prepared message is not what the tag object reads (%s)' % L.kind)
+        return
+
+    def fm():
+        got['f'] = tag.format(wipe=wipe)
+    rf = classify(fm)
+    formatted = rf == 'ok' and got['f'] is True
+    mem_f, n_f = bytes(sim.mem), len(sim.log)
+    Lf = layout_after_format(L2, product, mem_f) if formatted else L2
+    if not formatted:
+        Lf = Layout()
+        Lf.__dict__.update(L2.__dict__)
+        Lf.mem = bytearray(mem_f)
+    frf, fcapf, foctf = fresh_view(Lf, mem_f)
+    if formatted and frf != 'msg -':
+        if pid == 'C01':
+            ck.violation('%s:fmtwrite:format-view' % L.kind, 'format() returned True but a fresh reader does not see an empty message', dict(case, fresh=frf[:80]))
+        return
+
+    def capf():
+        got['cap'] = tag.ndef.capacity if tag.ndef is not None else None
+    if classify(capf) != 'ok' or got['cap'] is None:
+        if pid == 'C01' and formatted:
+            ck.violation('%s:fmtwrite:no-ndef' % L.kind, 'the tag object does not show NDEF after its own format() returned True', case)
+        return
+    cap = got['cap']
+
+    def wr():
+        tag.ndef.octets = new
+    n0 = sim.ncmd
+    r2 = classify(wr)
+    log2 = sim.log[n_f:]
+    part = _Part(log2, sim.mem)
+    fr, fcap, foct = fresh_view(Lf, sim.mem)
+    impl = ' | '.join([r2, show_cmds(log2), hx(sim.mem), fr, fcap])
+    is_pure = all(req == res for _a, _o, req, res in log2)
+    bt.add('%s_write %s %s' % (MODEL_PREFIX[L.kind], model_args(Lf), hexarg(new)), impl, L.kind + '-format-then-write', case,
+           mask=None if is_pure else (lambda s: ' | '.join(s.split(' | ')[:2])))
+    ck.case((L.kind, 'fmtwrite', hx(mem), wipe, hx(new)), True,
+            {'tag': L.kind, 'product': product, 'history': 'read %d bytes; format(wipe=%s) -> %s; assign %d bytes -> %s with %d commands' % (
+                len(old), wipe, got.get('f') if rf == 'ok' else rf, len(new), r2, len(log2))} if len(new) in (0, len(old)) else None)
+    ck.count('%s-format-then-write%s' % (L.kind, '' if formatted else '-unformatted'))
+    n = len(new)
+    if pid == 'C01':
+        if fcapf != 'none' and str(cap) != fcapf and formatted:
+            ck.violation('%s:fmtwrite:capacity' % L.kind, 'capacity on the tag object after format() (%d) differs from what a fresh reader reports (%s)' % (cap, fcapf), case)
+        elif n > cap:
+            if r2 != 'err ValueError' or log2 or sim.ncmd != n0:
+                ck.violation('%s:fmtwrite:oversize' % L.kind, 'data longer than the capacity is not rejected before any command is sent', dict(case, result=r2))
+        elif r2 != 'ok':
+            ck.violation('%s:fmtwrite:fails:%s' % (L.kind, r2.split()[-1]), 'assigning %d octets (capacity %d) after format() fails with %s' % (n, cap, r2), dict(case, result=r2))
+        elif foct != new:
+            ck.violation('%s:fmtwrite:readback' % L.kind, 'a fresh reader does not read back the octets written after format()', dict(case, fresh=fr[:200]))
+    if pid == 'C03':
+        monitor_frame(ck, Lf, part, 'NDEF write after format()', 'fmtwrite', case)
+    if pid == 'C02' and r2 == 'ok':
+        cur = bytearray(mem_f)
+        before = foctf if foctf is not None else None
+        for k in range(len(log2) + 1):
+            if k:
+                addr, _o, _req, res = log2[k - 1]
+                cur[addr:addr + len(res)] = res
+            frk, _c, fok = fresh_view(Lf, bytes(cur))
+            ck.case((L.kind, 'fmtwrite', hx(mem), wipe, hx(new), k), True, None)
+            ok = frk in ('nondef', 'notreadable', 'msg -') or fok == new or frk.startswith('failed err') or (fok is not None and fok == before)
+            if not ok:
+                one_unit = (Lf.off + 1) // Lf.unit == (Lf.off + 3) // Lf.unit
+                ll = 'short' if n < 255 else 'long-oneunit' if one_unit else 'long-straddle'
+                key = '%s:cut:%s:mixture' % (L.kind, ll) if (L.kind, ll) == ('t1d', 'long-straddle') else '%s:fmtwrite-cut:%s:mixture' % (L.kind, ll)
+                ck.violation(key, 'after format() and a power cut in the following write a fresh reader sees a %d byte message that is neither empty nor the new (%d) one' % (
+                    len(fok) if fok is not None else -1, n), dict(case, cut_after=k, commands=len(log2), fresh=frk[:120]))
+                break
+        ck.count('%s-fmtwrite-cut-points' % L.kind, len(log2) + 1)
+
+
+def fmtwrite_cases(ck, bt, L, pid, rng, reps):
+    for _ in range(reps):
+        old = rnd(rng, rng.choice([1, 5, 40, min(L.cap_expected, 100), rng.randrange(1, max(2, min(L.cap_expected, 300)))]))
+        if len(old) > L.cap_expected or not old:
+            continue
+        wipe = rng.choice([None, None, 0, 0xFF, old[0], rng.randrange(256)])
+        c = rng.randrange(5)
+        if c == 0:
+            new = old
+        elif c == 1:                       # shares most bytes with the message read before the format
+            new = bytearray(old)
+            for _i in range(rng.choice([1, 2, 5])):
+                new[rng.randrange(len(new))] ^= rng.randrange(1, 256)
+            new = bytes(new)
+        elif c == 2:
+            new = old[:rng.randrange(0, len(old) + 1)] + rnd(rng, rng.choice([0, 3, 20]))
+        elif c == 3:
+            new = rnd(rng, rng.choice([0, 1, len(old)]))
+        else:
+            new = rnd(rng, rng.randrange(0, min(L.cap_expected, 280) + 1))
+        fmtwrite_case(ck, bt, L, old, wipe, new, pid, rng)
+
+
+def topaz_layout(rng, big, off=None):
+    """Topaz (static, 120 bytes) / Topaz-512 tag as a user may have laid it out: NDEF TLV anywhere from byte 12, optionally the
+    factory Lock Control / Memory Control TLVs in front of it"""
+    L = Layout()
+    L.first, L.oneway = 12, set()
+    if not big:
+        L.kind, L.unit, L.hr, L.dend = 't1s', 1, bytes([0x11, 0x48]), 120
+        L.R = set(range(104, 120))
+        L.off = 12 + rng.choice([0, 0, 1, 3, 10]) if off is None else off
+        mem = bytearray(rng.randrange(1, 256) for _ in range(120))
+        mem[8:12] = bytes.fromhex('e1100e00')
+        mem[12:L.off] = bytes(L.off - 12)
+    else:
+        L.kind, L.unit, L.hr, L.dend = 't1d', 8, bytes([0x12, 0x4C]), 512
+        mem = bytearray(rng.randrange(1, 256) for _ in range(512))
+        mem[8:12] = bytes.fromhex('e1103f00')
+        c = rng.randrange(4) if off is None else (3 if off >= 22 else 2 if off >= 17 else 0)
+        L.R = set(range(104, 128))     # block 0Dh..0Fh are skipped on every dynamic memory tag
+        if c == 0:       # no control TLV
+            L.off = 12 + rng.choice([0, 1, 4]) if off is None else off
+            mem[12:L.off] = bytes(L.off - 12)
+        elif c == 1 or c == 2:     # Lock Control TLV only
+            L.off = 17 + rng.choice([0, 2]) if off is None else off
+            mem[12:17] = bytes.fromhex('0103f23033')
+            mem[17:L.off] = bytes(L.off - 17)
+        else:
+            L.off = 22 + rng.choice([0, 0, 3]) if off is None else off
+            mem[12:22] = bytes.fromhex('0103f230330203f00203')
+            mem[22:L.off] = bytes(L.off - 22)
+    mem[0:8] = bytes([1, 2, 3, 4, 5, 6, 7, 0])
+    mem[L.off], mem[L.off + 1] = 3, 0
+    L.mem = mem
+    f = L.free_after_tag()
+    L.cap_expected = (f + 1) - (4 if f + 1 > 256 else 2)
+    return L
+
+
 def run_write_on(L, old, new):
     mem = bytearray(L.mem)
     L2 = Layout()
@@ -1071,6 +1254,16 @@ def sector_case(ck, bt, L, old, d1, j, packet, kind, op2, pid, rng):
 
 
 def sector_cases(ck, bt, pid, rng, nlay):
+    """all of these run through a real nfc.clf.ContactlessFrontend (exchange / lock) over a fake device"""
+    REAL_FRONTEND[0] = True
+    try:
+        _sector_cases(ck, bt, pid, rng, nlay)
+    finally:
+        REAL_FRONTEND[0] = False
+    ck.count('t2-sector-layouts-through-real-ContactlessFrontend', nlay)
+
+
+def _sector_cases(ck, bt, pid, rng, nlay):
     for i in range(nlay):
         L = gen_sector_layout(rng, size8=(0x80 if i == 0 else None))
         old = rnd(rng, rng.choice([0, 40, 300]))
@@ -1160,6 +1353,16 @@ def corpus(ck, bt, pid, rng):
         write_case(ck, bt, L, bytes((i % 251) + 1 for i in range(200)), pid, rng)
     if pid == 'C02':
         cut_case(ck, bt, L, bytes(range(40)), bytes((i % 251) + 1 for i in range(200)), rng, 1)
+    # one tag object: read, format(wipe), assign the message read before (seeded regressions C02-e1 / C03-e1: Tag.format must
+    # drop the cached NDEF object; the Topaz formats write through a reader of their own)
+    frng = random.Random(11)
+    L = topaz_layout(frng, False, off=12)
+    fmtwrite_case(ck, bt, L, bytes(range(1, 41)), 0, bytes(range(1, 41)), pid, rng)
+    if 't1d' in KINDS:
+        L = topaz_layout(frng, True, off=17)     # Lock Control TLV only: format() moves the NDEF TLV to byte 22
+        fmtwrite_case(ck, bt, L, bytes(range(1, 21)), None, bytes(range(50, 80)), pid, rng)
+        L = topaz_layout(frng, True, off=22)
+        fmtwrite_case(ck, bt, L, bytes(range(1, 101)), 0xFF, bytes(range(1, 90)) + bytes(11), pid, rng)
     if 't1d' not in KINDS:
         return
     # Type 1, dynamic memory (Topaz-512 management TLVs), empty message
@@ -1198,10 +1401,15 @@ def replay(ck, pid, mr, path):
         return False
     L = Layout.from_desc(case['layout'])
     bt = Batch(ck, mr)
+    REAL_FRONTEND[0] = True       # the real ContactlessFrontend.exchange in the loop (transparent unless it is what is broken)
     if 'sector' in case:
         r = case['sector']
         op2 = ('write', bytes.fromhex(r['op2'][1])) if r['op2'][0] == 'write' else ('format', r['op2'][1])
         sector_case(ck, bt, L, bytes.fromhex(case['old']), bytes.fromhex(r['d1']), r['j'], r['packet'], r['kind'], op2, pid, ck.rng)
+    elif 'fmtwrite' in case:
+        r = case['fmtwrite']
+        L.mem[L.off], L.mem[L.off + 1] = 3, 0       # the recorded layout holds the old message; fmtwrite_case stores it again
+        fmtwrite_case(ck, bt, L, bytes.fromhex(case['old']), r['wipe'], bytes.fromhex(r['data']), pid, ck.rng)
     elif 'rewrite' in case:
         r = case['rewrite']
         kind = [k for k in FAULT_KINDS if k.__name__ == r['kind']][0]
@@ -1241,6 +1449,9 @@ def run(ck, pid, mr):
             for i in range(nlay):
                 L = gen_layout(rng, kind, big=(i % 12 == 0), tight=(pid == 'C03' and i % 3 == 0),
                                want_cap=(300 if i % 5 == 0 and kind != 't1s' else None))
+                # every second layout: a real nfc.clf.ContactlessFrontend (exchange) between the tag object and the simulated tag
+                REAL_FRONTEND[0] = i % 2 == 1
+                ck.count('%s-layouts-through-%s' % (kind, 'real-ContactlessFrontend' if REAL_FRONTEND[0] else 'fake-clf'))
                 check_info(ck, bt, L)
                 for n in lengths_for(L, rng, 2 if quick else 4):
                     prev = bytearray(L.mem)
@@ -1273,6 +1484,7 @@ def run(ck, pid, mr):
                     format_case(ck, bt, L1, rng.choice([0, 0xFF, rng.randrange(256), 0x1A5]))
                 if i % 20 == 19:
                     bt.flush()
+            REAL_FRONTEND[0] = False
             if pid == 'C01':
                 for i in range(150 if quick else 2000):
                     fuzz_case(ck, bt, gen_layout(rng, kind), rng)
@@ -1285,6 +1497,14 @@ def run(ck, pid, mr):
                     for n in range(0, L.cap_expected + 2):
                         write_case(ck, bt, L, rnd(rng, n), pid, rng)
                     bt.flush()
+        # read -> format -> write on one tag object (Tag.format / Tag.ndef base class code)
+        for i in range(12 if quick else 120):
+            if kind != 't2' and i % 3 != 2:
+                L = topaz_layout(rng, kind == 't1d')
+            else:
+                L = gen_layout(rng, kind, want_cap=(300 if kind != 't1s' and i % 4 == 0 else None))
+            fmtwrite_cases(ck, bt, L, pid, rng, 3)
+        bt.flush()
         if pid in ('C01', 'C02'):
             # two-operation histories on the same tag object (stale reader cache after a failed write)
             for i in range((12 if quick else 150) if pid == 'C02' else (6 if quick else 60)):
